@@ -361,6 +361,14 @@ func (self *Interpreter) infixHelper(lhs ast.AnalyzedExpression, rhs ast.Analyze
 		case pAst.MultiplyInfixOperator:
 			floatRes = lhsFloat.Inner * rhsFloat.Inner
 		case pAst.DivideInfixOperator:
+			// Like the VM: dividing a float by zero is a value error, not an infinity.
+			if rhsFloat.Inner == 0.0 {
+				return nil, nil, value.NewRuntimeErr(
+					"Division by zero error: this is operation is illegal",
+					value.ValueErrorKind,
+					rhs.Span(),
+				)
+			}
 			floatRes = lhsFloat.Inner / rhsFloat.Inner
 		case pAst.PowerInfixOperator:
 			floatRes = math.Pow(lhsFloat.Inner, rhsFloat.Inner)
